@@ -29,6 +29,7 @@ func corpusEnums() []*modSpec {
 		mk("enum-big", "package models\n\ntype E uint64\n\nconst (\n\tA E = 0\n\tB E = 18446744073709551615\n)\n\ntype S struct{ V E }\n"),
 		mk("enum-negative", "package models\n\ntype E int\n\nconst (\n\tA E = -1\n\tB E = 0\n\tC E = 1\n)\n\ntype S struct{ V E }\n"),
 		mk("enum-optout-some", "package models\n\ntype E int\n\nconst (\n\tA E = 0\n\tB E = 1\n\tMax E = 99 // gomacro:no-enum\n)\n\ntype S struct{ V E }\n"),
+		mk("enum-comments-above-constants", "package models\n\ntype State int\n\nconst (\n\t// Pending is the initial state\n\tPending State = iota\n\t// Running is set by the scheduler\n\tRunning\n\tDone // finished\n)\n\ntype Level int\n\nconst (\n\t// internal default, gomacro:no-enum would be read from a trailing comment only\n\tDefaultLevel Level = 3\n)\n\ntype Flag int\n\nconst (\n\t// the comment above mentions nothing special\n\tFlagA Flag = 1 // gomacro:no-enum\n\t// above\n\tFlagB Flag = 2\n)\n\ntype S struct {\n\tSt State\n\tL Level\n\tF Flag\n}\n"),
 		mk("enum-sibling-file", "package models\n\ntype S struct{ V E }\n", modFile{"enums.go", "package models\n\ntype E string\n\nconst (\n\tX E = \"x\" // the x\n\tY E = \"y\"\n)\n"}),
 		mk("enum-alias-typed", "package models\n\ntype E int\ntype A = E\n\nconst (\n\tX A = 0\n\tY E = 1\n)\n\ntype S struct{ V E }\n"),
 		mk("enum-subpackage", "package models\n\nimport \"example.com/org/models/sub\"\n\ntype E int\n\nconst (\n\tA E = iota\n\tB\n)\n\ntype S struct {\n\tV E\n\tW sub.E\n}\n",
